@@ -71,6 +71,14 @@ def classify_predicate(expr, mem, selfname='self'):
                 if k is not None:
                     # K in self (IntFlag containment): all bits of K set.  Monotone; mask semantic is "all of K".
                     return ('monotone_all', k)
+            if isinstance(op, (ast.In,)) and is_self(l) and not isinstance(r, (ast.Set, ast.Tuple, ast.List)):
+                mk = _fold_mask(r, mem)
+                if mk:
+                    # `self in MASK` on an IntFlag is a SUBSET test: adding any bit outside MASK turns it false
+                    k = next((v for v in mem.values() if v and (v & mk) == v), None)
+                    o = next((v for v in mem.values() if v and not (v & mk)), None)
+                    if k is not None and o is not None:
+                        return ('nonmonotone', (k, k | o))
             if isinstance(op, (ast.In,)) and is_self(l):
                 elts = r.elts if isinstance(r, (ast.Set, ast.Tuple, ast.List)) else None
                 if elts is not None:
@@ -465,3 +473,44 @@ def _balanced(s):
             if d < 0:
                 return False
     return d == 0
+
+
+def check_crypto_arm_verdict(rep, prog, rid):
+    """On the arm that runs the cryptographic check: a falsy result is always recorded with WrongSig in the issue set,
+    a truthy one never with a disqualifying member."""
+    fi = prog.method('pgpy.pgp', 'PGPKey', 'verify')
+    _, mem = _issues(prog)
+    for truthy in (False, True):
+        def oracle(t, _v=truthy):
+            if t.startswith('self._key.verify('):
+                return _v
+            if 'causes_signature_verify_to_fail' in t:
+                return False
+            return None
+        sc = Scenario(args={'subject': Sym('subject', types={'PGPUID'}, nonnull=True), 'signature': Const(None)},
+                      oracle=oracle, inline=lambda f: False, axioms={'(len(sspairs) == 0)': False})
+        outs = Interp(prog, sc).run(fi)
+        rep.analysed['paths'] += len(outs)
+        recs = []
+        for s in outs:
+            for c in s.calls:
+                if c[0].endswith('.add_sigsubj') and c not in recs:
+                    recs.append(c)
+        if not recs:
+            rep.violation(rid, 'PGPKey.verify', 'no record after the crypto check', 'the cryptographic result is never recorded', where=fi.where)
+            continue
+        for ft, args, kw, line, node in recs:
+            v = args[3] if len(args) > 3 else kw.get('issues')
+            ops = [o.replace('SecurityIssues.', '') for o in or_operands(v or '')]
+            w = '%s:%d' % (fi.module.relpath, line)
+            if not truthy:
+                rep.check(v is not None and 'WrongSig' in ops, rid, 'PGPKey.verify', 'library rejects -> recorded %s' % v,
+                          'a cryptographically wrong signature must always be recorded with WrongSig (whatever else is known about the key)',
+                          where=w, expected='SecurityIssues.WrongSig (possibly | more)', found=v, scenario='library verify rejects')
+            else:
+                bad = [o for o in ops if o in DISQUALIFYING]
+                rep.check(v is not None and not bad, rid, 'PGPKey.verify', 'library accepts -> recorded %s' % v,
+                          'an accepted signature on a non-disqualified key must not be recorded as failing', where=w, found=v,
+                          scenario='library verify accepts')
+            rep.check(len(args) > 2 and args[0] == 'sig' and args[2] == 'subj', rid, 'PGPKey.verify', 'record of %s' % (args[:3],),
+                      'the record must name the signature and subject that were examined', where=w)
